@@ -23,14 +23,14 @@ def materialize(tree, parent, seed=None):
     root = os.path.join(parent, tree["name"])
     if tree.get("single"):
         f = tree["files"][0]
-        write_file(root, content(tree_key(tree, f), f["size"], f.get("gen", 0), seed))
+        write_file(root, content(tree_key(tree, f), f["size"], f.get("gen", 0), seed, f.get("mode", "rand")))
         return root
     os.makedirs(root, exist_ok=True)
     for d in tree.get("dirs", []):
         os.makedirs(os.path.join(root, *d), exist_ok=True)
     for f in tree["files"]:
         write_file(os.path.join(root, *f["path"]),
-                   content(tree_key(tree, f), f["size"], f.get("gen", 0), seed))
+                   content(tree_key(tree, f), f["size"], f.get("gen", 0), seed, f.get("mode", "rand")))
     return root
 
 
